@@ -121,3 +121,18 @@ def n_assignments(leaves):
     for lo, hi in leaves.values():
         n *= (hi - lo + 1)
     return n
+
+
+def domain(lo, hi, margin=10):
+    """Full range for small leaves; region alphabet for wide ones: [-m..m] + m+1 values at each extreme (inside bounds)."""
+    if hi - lo <= 2 * margin + 2:
+        return list(range(lo, hi + 1))
+    pts = set(range(-margin, margin + 1)) | set(range(lo, lo + margin + 1)) | set(range(hi - margin, hi + 1))
+    return sorted(p for p in pts if lo <= p <= hi)
+
+
+def assignments_dom(leaves, margin=10):
+    ids = list(leaves)
+    doms = [domain(leaves[i][0], leaves[i][1], margin) for i in ids]
+    for vals in itertools.product(*doms):
+        yield dict(zip(ids, vals))
